@@ -339,15 +339,17 @@ func TestExhaustive(t *testing.T) {
 		replaySeq(t, cExh, "fsm-exhaustive", p)
 		return
 	}
-	L := 6
+	// quick: L=5 for both alphabets (the 11-letter sweep contains the 9-letter one; both are run so that
+	// the evidence labels stay comparable); thorough: 9 letters to L=7, 11 letters to L=6.
+	L, Lext := 5, 5
 	if vt.Thorough() {
-		L = 7
+		L, Lext = 7, 6
 		if os.Getenv("VT_RACE") != "" {
-			L = 5
+			L, Lext = 5, 4
 		}
 	}
 	sweep(t, cExh, coreLetters, L, fmt.Sprintf("core9-L%d", L))
-	sweep(t, cExh, extLetters, L-1, fmt.Sprintf("ext11-L%d", L-1))
+	sweep(t, cExh, extLetters, Lext, fmt.Sprintf("ext11-L%d", Lext))
 	cExh.SetExhaustive(true)
 }
 
